@@ -21,7 +21,7 @@ pub fn def() -> PropDef {
     PropDef {
         id: "C05",
         level: "exploration",
-        rule: "every replica state reachable by offering a subset of a two-author universe over keys {'',a,a\\xff,a\\xff\\xff,ab,b,b\\x00,\\xff,\\xff\\xff} (children offered before parents so that prefix deletion leaves stale by-key index rows) x the full product query kind {flat author-key, flat key-author, latest-per-key} x author filter {any,A1,A2,unknown} x key filter {any, exact k, prefix p} x direction x include-empty x offset {0,1,2} x limit {none,0,1,2}, plus get_exact for every (author,key,include_empty); a further state holds an author whose id ends in 0xFF next to raw entries of byte-neighbouring author ids, queried with the whole product for author filter {any, that author}; the oracle is a list comprehension over the reference dump; non-trivial = the reference answer before offset/limit is non-empty and the query has a filter, a non-default order or a window",
+        rule: "every replica state reachable by offering a subset of a two-author universe over keys {'',a,a\\xff,a\\xff\\xff,ab,b,b\\x00,\\xff,\\xff\\xff} (children offered before parents so that prefix deletion leaves stale by-key index rows) x the full product query kind {flat author-key, flat key-author, latest-per-key} x author filter {any,A1,A2,unknown} x key filter {any, exact k, prefix p} x direction x include-empty x window {offset 0,1,2 x limit none,0,1,2} + six windows at the ends of the number range (limit 2^64-1 with offsets 0,1; offset 2 with limit 2^64-2; offset 2^64-1 alone, with limit 2^64-1; offset 2^64-2 with limit 2), plus get_exact for every (author,key,include_empty); a further state holds an author whose id ends in 0xFF next to raw entries of byte-neighbouring author ids, queried with the whole product for author filter {any, that author}; one big state (two authors, 150 keys, 225 entries, markers) is queried with windows around 64, 150, 225 and 256 entries; the oracle is a list comprehension over the reference dump; non-trivial = the reference answer before offset/limit is non-empty and the query has a filter, a non-default order or a window",
         assumptions: &[
             "latest-per-key follows the statement and the API documentation: key filter before grouping, greatest timestamp among all authors, author filter after grouping; among several entries tied for the greatest timestamp any is accepted",
             "states hold at most 4 offered entries",
@@ -260,18 +260,25 @@ fn all_queries() -> Vec<Q> {
             for kf in &kfs {
                 for desc in [false, true] {
                     for include_empty in [true, false] {
+                        let mut windows: Vec<(u64, Option<u64>)> = vec![];
                         for offset in [0, 1, 2] {
                             for limit in [None, Some(0), Some(1), Some(2)] {
-                                v.push(Q {
-                                    kind,
-                                    af,
-                                    kf: kf.clone(),
-                                    desc,
-                                    include_empty,
-                                    offset,
-                                    limit,
-                                });
+                                windows.push((offset, limit));
                             }
+                        }
+                        // the ends of the number range: a window is "skip, then take", whatever
+                        // the sum of the two would be
+                        windows.extend([(0, Some(u64::MAX)), (1, Some(u64::MAX)), (2, Some(u64::MAX - 1)), (u64::MAX, None), (u64::MAX, Some(u64::MAX)), (u64::MAX - 1, Some(2))]);
+                        for (offset, limit) in windows {
+                            v.push(Q {
+                                kind,
+                                af,
+                                kf: kf.clone(),
+                                desc,
+                                include_empty,
+                                offset,
+                                limit,
+                            });
                         }
                     }
                 }
@@ -542,6 +549,46 @@ fn run(ctx: &Ctx, report: &mut Report) {
                 report.evaluations += n;
                 report.nontrivial += nt;
                 report.count("neighbour_author_queries", n);
+            }
+        }
+        report.merge(local);
+    }
+    // a big state (two authors, 150 keys, 225 entries, every tenth a deletion marker) under
+    // windows around 64 and 256 entries and at the ends of the result
+    if ctx.mine(sts.len() as u64 + 7) {
+        let ordinal = sts.len() as u64 + 7;
+        let mut offered = vec![];
+        for i in 0..150u32 {
+            let key = format!("k{i:04}");
+            offered.push(Spec::new(0, 0, key.as_bytes(), 1 + (i % 3) as u64, if i % 10 == 0 { Val::Del } else { Val::X }));
+            if i % 2 == 0 {
+                offered.push(Spec::new(0, 1, key.as_bytes(), 1 + (i % 2) as u64 * 2, Val::Y));
+            }
+        }
+        let st = state_of(offered);
+        let mut big_queries = vec![];
+        for kind in [Kind::FlatAuthorKey, Kind::FlatKeyAuthor, Kind::LatestPerKey] {
+            for af in [AF::Any, AF::A(0)] {
+                for kf in [KF::Any, KF::Prefix(b"k00".to_vec()), KF::Exact(b"k0100".to_vec())] {
+                    for desc in [false, true] {
+                        for include_empty in [true, false] {
+                            for offset in [0u64, 63, 64, 149, 150, 224, 225, 226, 255, 256] {
+                                for limit in [None, Some(1u64), Some(64), Some(65), Some(150), Some(225), Some(255), Some(256)] {
+                                    big_queries.push(Q { kind, af, kf: kf.clone(), desc, include_empty, offset, limit });
+                                }
+                            }
+                        }
+                    }
+                }
+            }
+        }
+        let mut local = Report::default();
+        match catch(|| check_state(&st, &big_queries, &mut local, ordinal)) {
+            Err(p) => report.violation("no_panic", json!({"big": true}), json!({"offered": st.offered}), format!("panic: {p}"), ordinal),
+            Ok((n, nt)) => {
+                report.evaluations += n;
+                report.nontrivial += nt;
+                report.count("big_state_queries", n);
             }
         }
         report.merge(local);
